@@ -184,6 +184,16 @@ def targeted_programs(dev):
                 for d in ("left_to_right", "right_to_left", "LEFT_TO_RIGHT", "Left_to_right", "RIGHT_TO_LEFT", "Right_To_Left",
                           "left_to_right ", " right_to_left", "left-to-right", "ltr", "", "up", "0", "1")]
     progs.append(h)
+    # the emitters obey the max_volume that is current at the call (the attribute is assigned between the calls)
+    lws = [gen.mk_plate("plate", 2, 2, 0, 10, [0, 0, 0, 0])]
+    h = gen.header("emit/config", dev, Fraction(1), 950, lws, flags={"comp": False, "norm": False, "robot": False})
+    W = lambda fn, v: {"op": "emit", "fn": fn, "args": {"rack": "R", "pos": I(1), "vol": v * 1000}}
+    R = lambda v, md: {"op": "emit", "fn": "reagent_distribution",
+                       "args": {"srack": "S", "s1": I(1), "s2": I(8), "drack": "D", "d1": I(1), "d2": I(12), "vol": v * 1000, "md": I(md)}}
+    h["ops"] = [W("aspirate_well", 500), R(300, 3), {"op": "setconfig", "maxv": 200}, W("aspirate_well", 500), W("dispense_well", 201),
+                W("dispense_well", 200), R(300, 1), R(100, 3), R(50, 12), {"op": "setconfig", "maxv": 1000}, W("aspirate_well", 951),
+                W("dispense_well", 1000), R(300, 3), R(300, 4), {"op": "setconfig", "maxv": 100}, R(100, 3), W("aspirate_well", 101)]
+    progs.append(h)
     # multi-dispense reduction: volumes just above and below max_volume / k
     for M in (950, 200, 1000):
         lws = [gen.mk_plate("plate", 2, 2, 0, 10, [0, 0, 0, 0])]
